@@ -80,7 +80,7 @@ def obligations(tier):
 
 MANIFEST = {
     "text": "For every validator kind of MDF_VALIDATOR_A, with the assigned value symbolic (unbounded ints, all 2^64 double bit patterns, strings/bytes up to the bound, indices and slice bounds, position of a bad element), "
-            "the real descriptors either accept and read back the value (float32 rounding modelled in z3 FP) or raise leaving every field unchanged, refuse everything outside the domain, and validation is on after any nesting of disable blocks. "
+            "the real descriptors either accept and read back the value (float32 rounding modelled in z3 FP) or raise leaving every field unchanged, refuse everything outside the domain, validation is on (flag and behaviour) after any nesting of disable blocks, and a disable block held by or overlapping with another thread does not switch it off for this thread. "
             "Each obligation is a CrossHair path-tree exhaustion with z3 (QF_FP for floats).",
     "note": "ctypes store model = engine/shadow.py (validated vs ctypes per run); float32 conversion as fp.to_fp RNE",
     "design_ref": "DESIGN.md 4.9",
